@@ -151,6 +151,45 @@ func selftest(args []string) int {
 		}
 		report("clisim determinism (6 scenarios x 5 processes)", len(sums) == 0, fmt.Sprintf("%d runs, %d scenarios diverged", n, len(sums)))
 	}
+	// 4. fidelity of the os facade: the unmodified binary under strace performs the same
+	// mutating file-system operations, in the same order, as the facade records
+	{
+		sub := filepath.Join(scratch, "fid")
+		os.MkdirAll(sub, 0o755)
+		bin := buildCLI(sub)
+		realBin := filepath.Join(sub, "minify.real")
+		if err := clisim.BuildReal(repoDir, realBin); err != nil {
+			infra("building the unmodified command: %v", err)
+		}
+		base := clisim.ScratchBase()
+		defer os.RemoveAll(base)
+		r := &clisim.Runner{Bin: bin}
+		nScen := 60
+		if len(args) > 0 && args[0] == "--thorough" {
+			nScen = 600
+		}
+		bad, ops := 0, 0
+		shapes := map[string]bool{}
+		first := ""
+		for i := 0; i < nScen; i++ {
+			d, shape, n, err := clisim.Fidelity(r, realBin, base, sim.NewTape(11, "fidelity", uint64(i)))
+			if err != nil {
+				infra("fidelity: %v", err)
+			}
+			shapes[shape] = true
+			ops += n
+			if d != "" {
+				bad++
+				if first == "" {
+					first = d
+				}
+			}
+		}
+		report("os facade == strace of the unmodified binary", bad == 0, fmt.Sprintf("%d scenarios, %d shapes, %d mutating operations compared, %d differ", nScen, len(shapes), ops, bad))
+		if first != "" {
+			fmt.Println(first)
+		}
+	}
 	fmt.Printf("selftest finished in %.1fs\n", time.Since(start).Seconds())
 	if !ok {
 		return 2
